@@ -71,11 +71,9 @@ func (calc *RewardCalculator) Calculate() (amt *balance.Amount, err error) {
 	cycleNo, firstInCycle, _ := calc.getCycleNo()
 	if calc.cached.available() {
 		*amt = *calc.cached.amount
-		// return if all reward years already passed
-		if calc.cached.burnedout {
-			return
-		}
-		// recalculation is not needed if it's in the same cycle
+		// recalculation is not needed if it's in the same cycle. A cached burnout is recalculated at
+		// the start of every cycle like any other result: a node that restarts recalculates it from
+		// the block store anyway, and all nodes must pull the same amount
 		if !firstInCycle {
 			return
 		}
